@@ -99,3 +99,7 @@ Proof.
   split; [reflexivity|]. split; [intros d; destruct d; reflexivity|]. split; [intros d; destruct d; reflexivity|].
   split; [|reflexivity]. intros b cap Hb. unfold g_ro_exec_budget. destruct (b =? 0) eqn:E; [lia | reflexivity].
 Qed.
+
+(* ---------------------------------------------------------------- the memory budget reaches the schedulers (C10) *)
+Lemma budget_reaches_schedulers : forallb (fun b => b) g_budget_hops = true.
+Proof. vm_compute. reflexivity. Qed.
